@@ -16,6 +16,10 @@ inst = c.instances[idx]
 print("instance", inst)
 def run(ctx):
     K = SymKit(ctx, opts=dict(c.opts or {}))
+    for a in sys.argv:
+        if a.startswith("--fix="):           # --fix=name=intvalue : pin an integer input
+            nm, v = a[6:].split("=")
+            ctx.assume(z3.Int(nm) == int(v))
     try:
         c.fn(K, *inst)
     except Exception as e:
@@ -27,6 +31,14 @@ n = 0
 for ctx, out in explore(run):
     n += 1
     print("path", n, "outcome", str(out)[:300], "obligations", len(ctx.obligs))
+    if "-p" in sys.argv:
+        pcs = ctx.pc if isinstance(ctx.pc, list) else [ctx.pc]
+        for t in pcs[-6:]:
+            print("   pc:", str(z3.simplify(t) if isinstance(t, z3.ExprRef) else t)[:700])
+        sol = z3.Solver(); sol.set("timeout", 20000)
+        for t in pcs:
+            sol.add(t)
+        print("   pc check:", sol.check())
     if "-o" in sys.argv:
         for ob in ctx.obligs:
             print("   ", ob.name)
